@@ -151,7 +151,14 @@ def _list_step(op: str, use_str: bool, n0: int, a, b, c, x, y, idx: int, j: int,
             del ref[idx]
         r = _both(_d_proxy, _d_ref)
     elif op == "sort":
-        r = _both(lambda: proxy.sort(), lambda: ref.sort())
+        if use_str:
+            r = _both(lambda: proxy.sort(key=len, reverse=bool(j % 2)), lambda: ref.sort(key=len, reverse=bool(j % 2)))
+        elif idx % 3 == 0:
+            r = _both(lambda: proxy.sort(), lambda: ref.sort())
+        else:
+            # a key under which distinguishable items tie (stability shows), plain or reversed
+            r = _both(lambda: proxy.sort(key=lambda v: v % 2, reverse=(idx % 3 == 2)),
+                      lambda: ref.sort(key=lambda v: v % 2, reverse=(idx % 3 == 2)))
     elif op == "reverse":
         r = _both(lambda: proxy.reverse(), lambda: ref.reverse())
     elif op == "clear":
@@ -194,7 +201,7 @@ def _mk_list(op: str):
     sites = ("state", "op") + (("typed",) if op in ("add", "copy") else ())
 
     @obligation(prop="C17", name="list_int_" + op, group="list_int_" + op, sites=sites, encodes=ENC_L,
-                budget={"quick": 120, "thorough": 400},
+                budget={"quick": 300, "thorough": 600},
                 what="ListProxy.%s vs built-in list from an arbitrary valid state (IntField(0..100) items, "
                      "n0<=3), symbolic arguments, 6 iterable kinds" % op)
     def ob_int(n0: int, a: int, b: int, c: int, x: int, y: int, idx: int, j: int, kind: int) -> bool:
@@ -245,7 +252,7 @@ def _s(i):
 
 def _prune(op, idx, j, kind):
     """arguments an operation does not use are pinned (avoids exploring the same behaviour repeatedly)"""
-    uses_idx = op in ("insert", "setitem", "setslice", "pop", "delitem", "queries")
+    uses_idx = op in ("insert", "setitem", "setslice", "pop", "delitem", "queries", "sort")
     uses_j = op in ("setslice", "mul", "imul", "queries")
     uses_kind = op in ("extend", "setslice", "iadd", "add", "init")
     if not uses_idx and idx != 0:
